@@ -54,6 +54,8 @@ func (c *Case) Summary() string {
 		s += fmt.Sprintf(" big=%v kill-at=%d‰ of full duration", c.Big, c.Frac)
 	case "kill-syscall":
 		s += fmt.Sprintf(" big=%v kill at write-class syscall #%d", c.Big, c.When)
+	case "kill-at-size":
+		s += fmt.Sprintf(" big=%v kill when the output reaches %d‰ of its final size", c.Big, c.Frac)
 	case "file":
 		s += fmt.Sprintf(" left-over file of %d bytes", len(c.File))
 	}
@@ -148,7 +150,7 @@ func oracle(c *Case) (facts, error) {
 		return f, err
 	case "commit-points":
 		return commitPoints(c, dir, rows, d, uniq)
-	case "kill-delay", "kill-syscall":
+	case "kill-delay", "kill-syscall", "kill-at-size":
 		return killCreate(c, dir, rows, d, uniq)
 	}
 	return f, fmt.Errorf("bad mode %q", c.Mode)
@@ -257,7 +259,74 @@ func killCreate(c *Case, dir string, rows []model.Row, d *model.Data, uniq strin
 		err := cmd.Wait()
 		finished = err == nil
 		f.killedAt = fmt.Sprintf("delay %d‰", c.Frac)
+	case "kill-at-size":
+		// SIGKILL as soon as the output file has reached a fraction of its final
+		// size (0 = as soon as it exists): aims at the states in which a partial
+		// output exists
+		r := fix.RunCLI(dir, 120*time.Second, []string{"TMPDIR=" + dir}, args...)
+		if r.Exit != 0 {
+			return f, fmt.Errorf("INFRA: unkilled `updog create` failed: exit %d: %s", r.Exit, r.Out)
+		}
+		st, err := os.Stat(out)
+		if err != nil {
+			return f, fmt.Errorf("INFRA: %v", err)
+		}
+		final := st.Size()
+		os.Remove(out)
+		cmd := exec.Command(fix.UpdogBin(), args...)
+		cmd.Env = env
+		if err := cmd.Start(); err != nil {
+			return f, fmt.Errorf("INFRA: %v", err)
+		}
+		done := make(chan error, 1)
+		go func() { done <- cmd.Wait() }()
+		threshold := final * int64(c.Frac) / 1000
+		killed := false
+	poll:
+		for {
+			select {
+			case err := <-done:
+				finished = err == nil
+				break poll
+			default:
+			}
+			if st, err := os.Stat(out); err == nil && st.Size() >= threshold {
+				cmd.Process.Signal(syscall.SIGKILL)
+				err := <-done
+				finished = err == nil
+				killed = true
+				break poll
+			}
+			time.Sleep(100 * time.Microsecond)
+		}
+		f.killedAt = fmt.Sprintf("output reached %d‰ of its final %d bytes (killed=%v)", c.Frac, final, killed)
 	case "kill-syscall":
+		if c.When < 0 {
+			// per-mille of the run: count the write-class syscalls per thread in
+			// an unkilled traced run first, then kill at that fraction of the
+			// busiest thread's count
+			plog := filepath.Join(dir, "strace-count.log")
+			pre := exec.Command("strace", append([]string{"-f", "-o", plog, "-e", "trace=" + writeClass, fix.UpdogBin()}, args...)...)
+			pre.Env = env
+			if outb, err := pre.CombinedOutput(); err != nil {
+				return f, fmt.Errorf("INFRA: counting run failed: %v: %s", err, outb)
+			}
+			os.Remove(out)
+			per := map[string]int{}
+			lb, _ := os.ReadFile(plog)
+			for _, line := range strings.Split(string(lb), "\n") {
+				if i := strings.IndexByte(line, ' '); i > 0 && strings.Contains(line, "(") {
+					per[line[:i]]++
+				}
+			}
+			max := 1
+			for _, n := range per {
+				if n > max {
+					max = n
+				}
+			}
+			c.When = 1 + max*(-c.When)/1000
+		}
 		log := filepath.Join(dir, "strace.log")
 		sargs := append([]string{"-f", "-o", log, "-e", "trace=" + writeClass,
 			"-e", fmt.Sprintf("inject=%s:signal=KILL:when=%d", writeClass, c.When), fix.UpdogBin()}, args...)
@@ -371,10 +440,18 @@ func TestQuick(t *testing.T) {
 	})
 	// an index of several MiB (so that any copying/compaction phase spans many
 	// syscalls), killed at write-class syscalls spread over the whole run
-	fix.Check(t, "kill-syscall-big", 6, func(rt *rapid.T) {
+	fix.Check(t, "kill-syscall-big", 3, func(rt *rapid.T) {
 		spec := gen.DataSpec{Recipe: &gen.Recipe{N: 40000, Cols: []gen.ColSpec{
 			{Name: "u", Prefix: "row-number-", Kind: gen.KUnique}, {Name: "a", Kind: gen.KMod, K: 7, Prefix: "v"}}}}
-		run(rt, &Case{Data: spec, Mode: "kill-syscall", Big: rapid.Bool().Draw(rt, "big"), When: rapid.IntRange(2, 400).Draw(rt, "when")})
+		run(rt, &Case{Data: spec, Mode: "kill-syscall", Big: rapid.Bool().Draw(rt, "big"), When: -rapid.IntRange(1, 1000).Draw(rt, "permille")})
+	})
+	fix.Check(t, "kill-at-size", 20, func(rt *rapid.T) {
+		run(rt, &Case{Data: drawData(rt, 3100), Mode: "kill-at-size", Big: rapid.Bool().Draw(rt, "big"), Frac: rapid.IntRange(0, 999).Draw(rt, "frac")})
+	})
+	fix.Check(t, "kill-at-size-big", 8, func(rt *rapid.T) {
+		spec := gen.DataSpec{Recipe: &gen.Recipe{N: 40000, Cols: []gen.ColSpec{
+			{Name: "u", Prefix: "row-number-", Kind: gen.KUnique}, {Name: "a", Kind: gen.KMod, K: 7, Prefix: "v"}}}}
+		run(rt, &Case{Data: spec, Mode: "kill-at-size", Big: rapid.Bool().Draw(rt, "big"), Frac: rapid.IntRange(0, 999).Draw(rt, "frac")})
 	})
 	fix.Check(t, "kill-delay", 15, func(rt *rapid.T) {
 		run(rt, &Case{Data: drawData(rt, 3100), Mode: "kill-delay", Big: rapid.Bool().Draw(rt, "big"), Frac: rapid.IntRange(0, 1100).Draw(rt, "frac")})
@@ -395,7 +472,15 @@ func TestThorough(t *testing.T) {
 	fix.Check(t, "kill-syscall-big", 40, func(rt *rapid.T) {
 		spec := gen.DataSpec{Recipe: &gen.Recipe{N: 40000, Cols: []gen.ColSpec{
 			{Name: "u", Prefix: "row-number-", Kind: gen.KUnique}, {Name: "a", Kind: gen.KMod, K: 7, Prefix: "v"}}}}
-		run(rt, &Case{Data: spec, Mode: "kill-syscall", Big: rapid.Bool().Draw(rt, "big"), When: rapid.IntRange(2, 600).Draw(rt, "when")})
+		run(rt, &Case{Data: spec, Mode: "kill-syscall", Big: rapid.Bool().Draw(rt, "big"), When: -rapid.IntRange(1, 1000).Draw(rt, "permille")})
+	})
+	fix.Check(t, "kill-at-size", 100, func(rt *rapid.T) {
+		run(rt, &Case{Data: drawData(rt, 3100), Mode: "kill-at-size", Big: rapid.Bool().Draw(rt, "big"), Frac: rapid.IntRange(0, 999).Draw(rt, "frac")})
+	})
+	fix.Check(t, "kill-at-size-big", 40, func(rt *rapid.T) {
+		spec := gen.DataSpec{Recipe: &gen.Recipe{N: 40000, Cols: []gen.ColSpec{
+			{Name: "u", Prefix: "row-number-", Kind: gen.KUnique}, {Name: "a", Kind: gen.KMod, K: 7, Prefix: "v"}}}}
+		run(rt, &Case{Data: spec, Mode: "kill-at-size", Big: rapid.Bool().Draw(rt, "big"), Frac: rapid.IntRange(0, 999).Draw(rt, "frac")})
 	})
 	fix.Check(t, "kill-delay", 120, func(rt *rapid.T) {
 		run(rt, &Case{Data: drawData(rt, 3100), Mode: "kill-delay", Big: rapid.Bool().Draw(rt, "big"), Frac: rapid.IntRange(0, 1100).Draw(rt, "frac")})
